@@ -477,7 +477,7 @@ def run(ctx):
         n1, b1 = tie_writer(ctx, tools, exe, ctx.scale(800, 60000))
         n2, b2 = tie_container(ctx, tools, exe, ctx.scale(150, 8000))
         n3, b3 = tie_hash(ctx, tools, exe, ctx.scale(20, 3000))
-        ncont, ndist = tie_real_output(ctx, tools, exe, ctx.scale(28, 900), ctx.scale(1, 42))
+        ncont, ndist = tie_real_output(ctx, tools, exe, ctx.scale(28, 900), ctx.scale(1, 14))
         evaluations = ctx.cov["writer_correspondence"]["sequences"] + ctx.cov["container_correspondence"]["part_lists"] + \
             ctx.cov["hash_correspondence"]["inputs"] + ncont
         nontrivial = n1 + n2 + n3 + ndist
